@@ -1,12 +1,108 @@
-(* C10 - event-time timers fire exactly once, in order, and survive recovery.  Statements only. *)
-From RV Require Import Base.Bytes Model.TimerStore Model.TimerRegistry Proofs.C10_Spec Proofs.C10_History.
+(* C10 - event-time timers fire exactly once, in order, and survive recovery.  Statements only.
+
+   Model: Model/TimerStore.v + Model/TimerRegistry.v, the current code ([quirks_now]) of workers/operator/timer_store.go
+   and timer_registry.go over the SPECIFICATION of the DKV (a strictly sorted list of keys), of ds.SortedCache (sorted
+   set + byteSize) and of ds.PartitionedPriorityQueue ("a partition with minimal Peek").
+   Specification: Proofs/C10_Spec.v, a duplicate-free list of pending (subject key, timestamp) pairs:
+     SetTimer k t   adds (k, t) unless t <= watermark or (k, t) is pending already
+     Advance s w    records w for sender s, watermark := minimum over the upstreams; exactly the pending (k, t) with
+                    t <= watermark are due and leave the pending list
+     AdvanceSet     the same with SetTimer calls made by the consumer right after the n-th yield
+     Restore        (checkpoint + restore) fresh registry and store over the DB content at that point: upstreams and
+                    watermark back to the epoch, the pending list untouched
+   [op_okc kgf start size] is the guard of a history element: registered timestamps are in [0, 2^63) ns and the subject
+   key's group [kgf key] lies in the operator's range [start, start+size). *)
+From RV Require Import Base.Bytes Model.TimerStore Model.TimerRegistry.
+From RV Require Import Proofs.C10_Queue Proofs.C10_Spec Proofs.C10_History Proofs.C10_Registry Proofs.C10_SpecFacts.
+From Coq Require Import Permutation.
 Open Scope N_scope.
 
-(* timestamps before 1970 are outside the guard: uint64(UnixNano) wraps, such timers sort last; the model (and the code)
-   then fire late and out of order *)
+(* For every history (any keys, timestamps in [0, 2^63), any repetition of identical registrations, SetTimer calls
+   between two yields, Restore at any point), every cache size [cache] >= 0, every key-group function and range, every
+   list of source runners: each advance yields exactly the due pending timers (a permutation of the specification's due
+   list: none missing, none extra), in non-decreasing timestamp order, each once; at the end (hence after every prefix,
+   in particular across every Restore) the DB holds exactly the encodings of the specification's pending timers; and in
+   every reachable state every key group's cache is a prefix of the group's sorted DB content - all of it when
+   allDataInCache is set - with byteSize equal to the number of cached bytes. *)
+Theorem timers_exactly_once_in_order :
+  forall (kgf : bytes -> N) (start size cache : N) (srids : list N) (ops : list op),
+    start + size <= 65536 ->
+    Forall (op_okc kgf start size) ops ->
+    let c := {| cf_q := quirks_now; cf_kgf := kgf; cf_start := start; cf_size := size; cf_cache := cache; cf_srids := srids |} in
+    Forall2 (fun out due => Permutation out due /\ time_sorted out = true /\ NoDup out)
+            (fst (run c ops (sys_new c []))) (fst (spec_run srids ops (spec_new srids []))) /\
+    Permutation (snd (snd (run c ops (sys_new c []))))
+                (map (enc kgf) (sp_pending (snd (spec_run srids ops (spec_new srids []))))) /\
+    cache_inv (snd (run c ops (sys_new c []))).
+Proof. intros kgf start size cache srids ops H Hok. exact (refinement kgf start size cache srids H ops Hok). Qed.
+Print Assumptions timers_exactly_once_in_order.
+
+(* What the specification says, in the words of the property.  An advance fires exactly the pending timers with
+   t <= the new composite watermark, each once; afterwards no pending timer is at or before the watermark, none of the
+   fired ones is pending (it cannot fire again unless it is registered again), and every pending timer later than the
+   watermark is still pending. *)
+Theorem advance_fires_exactly_the_due_timers :
+  forall sender wm during s, NoDup (sp_pending s) ->
+    let due := fst (sp_advance sender wm during s) in
+    let s' := snd (sp_advance sender wm during s) in
+    sp_wm s' = ups_min (ups_set sender wm (sp_ups s)) /\
+    NoDup due /\
+    (forall x, In x due <-> In x (sp_pending s) /\ (snd x <= sp_wm s')%Z) /\
+    NoDup (sp_pending s') /\
+    (forall x, In x (sp_pending s') -> (sp_wm s' < snd x)%Z) /\
+    (forall x, In x due -> ~ In x (sp_pending s')) /\
+    (forall x, In x (sp_pending s) -> (sp_wm s' < snd x)%Z -> In x (sp_pending s')).
+Proof. exact sp_advance_facts. Qed.
+Print Assumptions advance_fires_exactly_the_due_timers.
+
+(* the SetTimer guard: a timer on or before the watermark is ignored; a later one becomes pending, once; the identical
+   registration again changes nothing *)
+Theorem set_timer_guard_and_idempotence :
+  forall k t s,
+    ((t <= sp_wm s)%Z -> sp_set k t s = s) /\
+    ((sp_wm s < t)%Z -> NoDup (sp_pending s) -> In (k, t) (sp_pending (sp_set k t s)) /\ NoDup (sp_pending (sp_set k t s))) /\
+    sp_set k t (sp_set k t s) = sp_set k t s.
+Proof. intros k t s. split; [apply sp_set_guard|]. split; [apply sp_set_pending|apply sp_set_idem]. Qed.
+Print Assumptions set_timer_guard_and_idempotence.
+
+(* checkpoint + restore keeps exactly the pending timers *)
+Theorem restore_keeps_pending :
+  forall srids s, sp_pending (snd (sp_step srids Restore s)) = sp_pending s.
+Proof. exact sp_restore_keeps. Qed.
+Print Assumptions restore_keeps_pending.
+
+(* timestamps before 1970 are outside the guard: uint64(UnixNano) wraps, such timers sort last; the model (and the code:
+   corpus/timers/pre_epoch.json, known finding) fires them late and out of order *)
 Theorem pre_epoch_order_refuted :
   exists ops, forallb op_ok ops = false /\
     fst (run (one_group quirks_now 1000) ops (sys_new (one_group quirks_now 1000) [])) <> fst (spec_run [0] ops (spec_new [0] [])) /\
-    fst (run (one_group quirks_now 1000) ops (sys_new (one_group quirks_now 1000) [])) = [[]; [(k1, 5%Z); (k1, (-5)%Z)]].
+    fst (run (one_group quirks_now 1000) ops (sys_new (one_group quirks_now 1000) [])) = [[]; []; [(k1, 5%Z); (k1, (-5)%Z)]].
 Proof. exists h_pre_epoch. vm_compute. repeat split; discriminate. Qed.
 Print Assumptions pre_epoch_order_refuted.
+
+(* the two repaired defects refute the property on the model of the code as it was (fix: f0e6d7e, 541bd63) *)
+Theorem load_marks_all_cached_refutes_C10 :
+  exists ops, forallb op_ok ops = true /\
+    fst (run (one_group quirks_D12 40) ops (sys_new (one_group quirks_D12 40) [])) = [map (fun i => (k1, Z.of_nat i)) (seq 1 7); []] /\
+    fst (spec_run [0] ops (spec_new [0] [])) = [rev (map (fun i => (k1, Z.of_nat i)) (seq 1 8)); []].
+Proof. exists h_D12. vm_compute. repeat split. Qed.
+Print Assumptions load_marks_all_cached_refutes_C10.
+
+Theorem push_beyond_cache_max_refutes_C10 :
+  exists ops, forallb op_ok ops = true /\
+    fst (run (one_group quirks_D13 40) ops (sys_new (one_group quirks_D13 40) [])) =
+      [[(k1, 10%Z)]; [(k1, 20%Z); (k1, 30%Z)]; [(k1, 60%Z); (k1, 40%Z); (k1, 50%Z)]] /\
+    fst (spec_run [0] ops (spec_new [0] [])) = [[(k1, 10%Z)]; [(k1, 40%Z); (k1, 30%Z); (k1, 20%Z)]; [(k1, 60%Z); (k1, 50%Z)]].
+Proof. exists h_D13. vm_compute. repeat split. Qed.
+Print Assumptions push_beyond_cache_max_refutes_C10.
+
+(* non-vacuity: the guard is satisfiable by a history that overflows a 40-byte cache, repeats a registration, restores
+   and fires; the theorem's conclusion is then about these concrete outputs *)
+Example guard_satisfiable :
+  Forall (op_okc (fun _ => 0) 0 1) (h_D13 ++ [Restore; SetTimer k1 70%Z; SetTimer k1 70%Z; Advance 0 maxt]) /\
+  fst (run (one_group quirks_now 40) (h_D13 ++ [Restore; SetTimer k1 70%Z; SetTimer k1 70%Z; Advance 0 maxt]) (sys_new (one_group quirks_now 40) []))
+    = [[(k1, 10%Z)]; [(k1, 20%Z); (k1, 30%Z); (k1, 40%Z)]; [(k1, 50%Z); (k1, 60%Z)]; [(k1, 70%Z)]].
+Proof.
+  split; [|vm_compute; reflexivity].
+  repeat constructor; cbn; unfold Proofs.C10_Codec.t_in, Proofs.C10_Store.in_range; cbn; try lia.
+Qed.
